@@ -16,6 +16,7 @@
 #include <distributed/mpi.h>
 #include <log/file.h>
 #include <mm/mm.h>
+#include <verif_hooks.h>
 
 #include <assert.h>
 #include <stdint.h>
@@ -353,6 +354,7 @@ void stats_on_gvt(simtime_t gvt)
 		return;
 
 	stats_cur.s[STATS_REAL_TIME_GVT] = timer_value(sim_start_ts);
+	VERIF_TRACE(VT_STATS_GVT, verif_bits(gvt), 0, 0, 0);
 
 	file_write_chunk(stats_tmps[rid], &stats_cur, sizeof(stats_cur));
 	memset(&stats_cur, 0, sizeof(stats_cur));
